@@ -6,7 +6,7 @@ from props._m1 import quiet_repo, model_dict
 PROP = "C18"
 LEVEL = "other"
 SELFTEST_PARTS = ("num",)
-WALL_BUDGET = {"quick": 1200, "thorough": 9000}
+WALL_BUDGET = {"quick": 3600, "thorough": 14400}
 OUTCOMES = ["did-something", "nothing-happened", "backoff", "exception", "base-exception"]
 
 
